@@ -1348,9 +1348,17 @@ int Intersection::compare(const Basic &o) const
 
 RCP<const Set> Intersection::set_union(const RCP<const Set> &o) const
 {
+    // (A n B) u o = (A u o) n (B u o).  Distribute only when every A u o
+    // simplifies: set_intersection distributes over a Union again, which
+    // would lead back here without end.
     set_set container;
     for (auto &a : container_) {
-        container.insert(a->set_union(o));
+        auto u = a->set_union(o);
+        if (is_a<Union>(*u)) {
+            return SymEngine::make_set_union(
+                {rcp_from_this_cast<const Set>(), o});
+        }
+        container.insert(u);
     }
     return SymEngine::set_intersection(container);
 }
